@@ -54,7 +54,8 @@ def as_list(ex, v):
 
 class Iter:
     """iterator over items[pos:end] (by reference unless by_value) followed by lazy stages"""
-    def __init__(self, src, pos=0, end=None, by_value=False, stages=None, rev=False):
+    def __init__(self, src, pos=0, end=None, by_value=False, stages=None, rev=False, pairs=False):
+        self.pairs = pairs          # map iterators: items are [key, value] entries and the iterator yields (&key, &value)
         self.src = src              # ListModel (shared with the container when iterating by reference)
         self.pos = pos
         self.end = len(src.items) if end is None else end
@@ -70,10 +71,13 @@ class Iter:
             self.end -= 1; k = self.end
         else:
             k = self.pos; self.pos += 1
+        if self.pairs:
+            e = self.src.items[k]
+            return [Ptr(e, 0), Ptr(e, 1)]
         return self.src.items[k] if self.by_value else Ptr(self.src.items, k)
 
     def with_stage(self, kind, payload=None):
-        it = Iter(self.src, self.pos, self.end, self.by_value, self.stages + [(kind, payload)], self.rev)
+        it = Iter(self.src, self.pos, self.end, self.by_value, self.stages + [(kind, payload)], self.rev, self.pairs)
         return it
 
 
